@@ -2,6 +2,8 @@ from propcfg.C16 import TB
 
 def nontrivial(cmd, inp, impl, prev):
     # the input contains a line feed or white space at a line edge: flattening had something to do
+    if cmd.startswith("net."):
+        return True
     a = inp.split(" ")
     return "0a" in a[-1] or "20" in a[-1]
 
